@@ -67,7 +67,7 @@ def obj_code_stage(stage, prev, show_code_stage, kind):
     return f"{stage[0]},{prev}:{body}"
 
 
-def compare_object(ctx, kind, data, text, seqs, code, prevs, lens, frames, label, helpers):
+def compare_object(ctx, kind, data, text, seqs, code, prevs, lens, frames, label, helpers, with_spec=True):
     """code: per schedule the stage list [(cur, frames) | 'err:..']; prevs: per schedule the previous_position
     after every poll that returned"""
     show_code_stage, canon_model, fl_rows = helpers
@@ -99,6 +99,8 @@ def compare_object(ctx, kind, data, text, seqs, code, prevs, lens, frames, label
                 ctx.disagree({"fn": f"ReadAndProcessOnTheFly({kind}) current/previous_position vs rpRun[{v0}]",
                               "label": label, "text": text, "cuts": sq}, c, m)
                 break
+    if not with_spec:
+        return
     # the position spec (right-hand side of rp_xyz_exact_pos / rp_lmp_exact_pos) against the implementation
     exp_fr = ([fl_rows(f) for f in frames] if kind == "xyz" else [(fl_rows(c), fl_rows(b)) for c, b in frames])
     for sq, st, sp in zip(seqs, code, spec):
